@@ -45,6 +45,15 @@ def interp (c : Ctx) : Prog → Except Err Item
   | .eff (.get _ _) k => interp c (k none)
   | .eff (.set _ _ _) k => interp c (k none)
 
+/-- the output of `compute_hash` must be a `(NodeHash, payload)` pair; anything else is an internal error -/
+def Item.asHout : Item → Except Err (NHash × Val)
+  | .hout h p => .ok (h, p)
+  | _ => .error .internal
+
+def Item.asVal : Item → Except Err Val
+  | .val v => .ok v
+  | _ => .error .internal
+
 /-- Denotation of one node given the denotations of all earlier nodes. -/
 structure Den where
   h : Except Err (NHash × Val)
@@ -61,6 +70,17 @@ def DenCfg.call (d : DenCfg) (n : Nat) (f : String) (pos : List Val) (kwn : List
   if let some (_, v) := d.constFns.find? (·.1 == f) then v
   else if d.impureFns.contains f then .imp f d.callNo n pos kwn kwv else .app f pos kwn kwv
 
+/-- the handlers of node `i` during its hash phase: parents from the earlier denotations, no current hash yet -/
+def denCtx (d : DenCfg) (acc : List Den) (i : Nat) (nd : Node) : Ctx :=
+  { ph := fun j => match nd.parents[j]? with
+      | some p => (acc.getD p ⟨.error .internal, .error .internal⟩).h.map (·.1)
+      | none => .error .internal
+    pv := fun j => match nd.parents[j]? with
+      | some p => (acc.getD p ⟨.error .internal, .error .internal⟩).v
+      | none => .error .internal
+    cur := .error .internal
+    call := d.call i }
+
 def denNode (g : Graph) (d : DenCfg) (acc : List Den) (i : Nat) (nd : Node) : Den :=
   if g.usedInputs.contains i then
     match d.env nd.name with
@@ -69,25 +89,17 @@ def denNode (g : Graph) (d : DenCfg) (acc : List Den) (i : Nat) (nd : Node) : De
   else match nd.edge with
     | none => { h := .error .internal, v := .error .internal }
     | some e =>
-      let par (j : Nat) : Den := match nd.parents[j]? with
-        | some p => acc.getD p ⟨.error .internal, .error .internal⟩
-        | none => ⟨.error .internal, .error .internal⟩
-      let c0 : Ctx := { ph := fun j => (par j).h.map (·.1), pv := fun j => (par j).v,
-                        cur := .error .internal, call := d.call i }
-      let h : Except Err (NHash × Val) :=
-        match interp c0 (e.hashProg nd.parents.length) with
-        | .ok (.hout h p) => .ok (h, p)
-        | .ok _ => .error .internal
-        | .error err => .error err
-      let v : Except Err Val :=
-        match interp { c0 with cur := h } (e.evalProg nd.parents.length) with
-        | .ok (.val v) => .ok v
-        | .ok _ => .error .internal
-        | .error err => .error err
+      let c0 := denCtx d acc i nd
+      let h : Except Err (NHash × Val) := (interp c0 (e.hashProg nd.parents.length)).bind Item.asHout
+      let v : Except Err Val := (interp { c0 with cur := h } (e.evalProg nd.parents.length)).bind Item.asVal
       { h := h, v := v }
 
-def denAll (g : Graph) (d : DenCfg) : List Den :=
-  g.nodes.zipIdx.foldl (fun acc (nd, i) => acc ++ [denNode g d acc i nd]) []
+/-- the denotations of the nodes `i, i+1, …` appended to those of the earlier nodes -/
+def denFrom (g : Graph) (d : DenCfg) : List Node → Nat → List Den → List Den
+  | [], _, acc => acc
+  | nd :: rest, i, acc => denFrom g d rest (i + 1) (acc ++ [denNode g d acc i nd])
+
+def denAll (g : Graph) (d : DenCfg) : List Den := denFrom g d g.nodes 0 []
 
 /-- the value of the output: what `Graph.__call__` must return -/
 def vden (g : Graph) (d : DenCfg) : Except Err Val := ((denAll g d).getD g.output default).v
